@@ -15,6 +15,7 @@ import (
 	"math"
 	"strings"
 	"sync"
+	"time"
 
 	"github.com/ossrs/go-oryx-lib/amf0"
 	"github.com/ossrs/go-oryx-lib/rtmp"
@@ -354,7 +355,9 @@ func (c *freeConn) Read(p []byte) (int, error) {
 
 func racePass(c *hl.Ctx) {
 	reqs := []req{{"connect", 1}, {"createStream", 2}, {"createStream", 3}, {"createStream", 4}}
+	c.StartWatchdog(30 * time.Second)
 	for it := 0; it < 400 && !c.Expired(); it++ {
+		c.Case("free-running-pass", nil)
 		fc := &freeConn{peer: newPeer("status-before")}
 		fc.cond = sync.NewCond(&fc.mu)
 		a := rtmp.NewProtocol(fc)
